@@ -315,6 +315,8 @@ class PoolRun:
             a, k = self.shape_args(plan["shape"], -1)
             self.simple_exp = repr((tuple(a), k))
             sfunc = self.make_func(-1, plan, set(plan.get("bad", [])))
+            if plan.get("method"):
+                sfunc = self.as_method(sfunc)
             if plan.get("partial"):
                 sfunc = functools.partial(sfunc)      # a coroutine function without a __name__
             self.pool = SimpleTaskPool(
@@ -483,6 +485,19 @@ class PoolRun:
         func.__qualname__ = "Harness.<locals>.w"    # the documented pattern uses the plain name
         inspect.markcoroutinefunction(func)
         return func
+
+    @staticmethod
+    def as_method(func):
+        import types
+
+        class Holder:
+            __slots__ = ()
+
+        def w(self_, *a, **kw):
+            return func(*a, **kw)
+        w.__qualname__ = "Holder.w"
+        inspect.markcoroutinefunction(w)
+        return types.MethodType(w, Holder())
 
     def make_plain_func(self, r):
         me = self
@@ -775,6 +790,10 @@ class PoolRun:
             func = self.make_plain_func(r)
         else:
             func = self.make_func(r, tpl, set(tpl.get("bad", [])))
+            if tpl.get("method"):
+                # a bound method of some object is a perfectly good coroutine function (it cannot take new attributes, its
+                # identity differs from access to access)
+                func = self.as_method(func)
             if tpl.get("partial") and tpl.get("gname") is not None:
                 # a functools.partial of a coroutine function is a coroutine function too (it has no __name__: the request
                 # carries an explicit group name)
